@@ -21,6 +21,7 @@ USER_GROUPS = [
     ("container-types", [{"k", "e"}, ("g", "P"), "kE", frozenset(["p"]), {"K": 1, "g": 2}.keys()]),
     ("all-absent", [["W"], ["C", "M"]]),               # no group has a member in a {K,E,G,P} word: rows of zeros, too-long windows still rejected
     ("one-absent-one-present", [["W", "F"], ["G", "K"]]),
+    ("union-after-overlapping-parts", [["K", "E"], ["E", "G"], ["K", "E", "G"], ["E"], ["K", "E", "G", "P"]]),
 ]
 
 
@@ -63,6 +64,7 @@ def check_case(case):
     from localcider.sequenceParameters import SequenceParameters as SP
     seq = case["seq"]
     N = len(seq)
+    sq = core.short(seq)
     out = []
     calls = 0
 
@@ -76,6 +78,8 @@ def check_case(case):
     sig_prof = {}
     wins = range(1, N + 4) if N <= 16 else sorted({1, 2, 4, 5, 6, 8, 9, 12, N // 2, 128, 129, 200, 256, 257, N - 1, N, N + 1, N + 2}
                                                    if N > 200 else {1, 2, 4, 5, 6, 8, 9, 12, N // 2, N - 1, N, N + 1, N + 2})
+    if N > 1000:
+        wins = sorted({5, 6, 1001, 1100, N - 1, N, N + 1})
     wins = list(wins)
     if case.get("rejected_first") or zlib.crc32(seq.encode()) % 4 == 0:
         wins = [N + 2] + wins        # the (rejected) too-long window is asked FIRST on this object, the valid ones afterwards
@@ -86,25 +90,25 @@ def check_case(case):
                 arr = g(np.int64(w)) if (w + len(name)) % 3 == 0 else g(w)      # window also as a numpy integer
             except Exception as e:  # noqa
                 if w <= N:
-                    v("rejects-valid-window:" + name, "%s: get_linear_%s(%d) raised %r" % (seq, name, w, e), w=w, getter=name)
+                    v("rejects-valid-window:" + name, "%s: get_linear_%s(%d) raised %r" % (sq, name, w, e), w=w, getter=name)
                 continue
             if w > N:
                 v("window-gt-length-answered:" + name,
-                  "%s (N=%d): get_linear_%s(%d) was answered with %r instead of an error" % (seq, N, name, w, np.asarray(arr).tolist()),
+                  "%s (N=%d): get_linear_%s(%d) was answered with %r instead of an error" % (sq, N, name, w, np.asarray(arr).tolist()),
                   w=w, getter=name)
                 continue
             arr = np.asarray(arr)
             if arr.shape != (2, N):
-                v("shape:" + name, "%s: get_linear_%s(%d) has shape %r, expected (2,%d)" % (seq, name, w, arr.shape, N), w=w, getter=name)
+                v("shape:" + name, "%s: get_linear_%s(%d) has shape %r, expected (2,%d)" % (sq, name, w, arr.shape, N), w=w, getter=name)
                 continue
             if list(arr[0]) != list(range(1, N + 1)):
-                v("positions:" + name, "%s: get_linear_%s(%d) position row %r" % (seq, name, w, arr[0].tolist()), w=w, getter=name)
+                v("positions:" + name, "%s: get_linear_%s(%d) position row %r" % (sq, name, w, arr[0].tolist()), w=w, getter=name)
             err = cmp_row(arr[1], ref_profile(name, seq, w))
             if err:
-                v("profile:" + name, "%s: get_linear_%s(%d): %s; row=%r" % (seq, name, w, err, arr[1].tolist()), w=w, getter=name)
+                v("profile:" + name, "%s: get_linear_%s(%d): %s; row=%r" % (sq, name, w, err, arr[1].tolist()), w=w, getter=name)
             if w == N and not core.close(arr[1][(w - 1) // 2], whole[name], 1e-12, 1e-13):
                 v("w=N-vs-global:" + name, "%s: get_linear_%s(N) = %r but whole-sequence value is %r"
-                  % (seq, name, arr[1][(w - 1) // 2], whole[name]), w=w, getter=name)
+                  % (sq, name, arr[1][(w - 1) // 2], whole[name]), w=w, getter=name)
             if name == "sigma" and w in (5, 6):
                 lead = (w - 1) // 2
                 sig_prof[w] = arr[1][lead:lead + N - w + 1]
@@ -115,11 +119,11 @@ def check_case(case):
                 res = o.get_linear_sequence_composition(w) if grps is None else o.get_linear_sequence_composition(w, [(list(g) if isinstance(g, list) else g) for g in grps])
             except Exception as e:  # noqa
                 if w <= N:
-                    v("rejects-valid-window:composition", "%s: get_linear_sequence_composition(%d,%s) raised %r" % (seq, w, gname, e),
+                    v("rejects-valid-window:composition", "%s: get_linear_sequence_composition(%d,%s) raised %r" % (sq, w, gname, e),
                       w=w, groups=gname)
                 continue
             if w > N:
-                v("window-gt-length-answered:composition", "%s (N=%d): get_linear_sequence_composition(%d) answered" % (seq, N, w),
+                v("window-gt-length-answered:composition", "%s (N=%d): get_linear_sequence_composition(%d) answered" % (sq, N, w),
                   w=w, groups=gname)
                 continue
             ref_groups = T.DEFAULT_GROUPS if grps is None else grps
@@ -128,21 +132,21 @@ def check_case(case):
                 pos = np.asarray(pos)
                 dens = np.asarray(dens)
             except Exception:  # noqa
-                v("shape:composition", "%s: get_linear_sequence_composition(%d,%s) returned %r" % (seq, w, gname, res), w=w, groups=gname)
+                v("shape:composition", "%s: get_linear_sequence_composition(%d,%s) returned %r" % (sq, w, gname, res), w=w, groups=gname)
                 continue
             if list(pos) != list(range(1, N + 1)):
-                v("positions:composition", "%s: composition(%d,%s) position row %r" % (seq, w, gname, pos.tolist()), w=w, groups=gname)
+                v("positions:composition", "%s: composition(%d,%s) position row %r" % (sq, w, gname, pos.tolist()), w=w, groups=gname)
             if dens.ndim == 1 and len(ref_groups) == 1:
                 dens = dens.reshape(1, -1)
             if dens.shape != (len(ref_groups), N):
                 v("shape:composition", "%s: composition(%d,%s) density shape %r, expected (%d,%d)"
-                  % (seq, w, gname, dens.shape, len(ref_groups), N), w=w, groups=gname)
+                  % (sq, w, gname, dens.shape, len(ref_groups), N), w=w, groups=gname)
                 continue
             for gi, grp in enumerate(ref_groups):
                 G = set(x.upper() for x in grp)
                 err = cmp_row(dens[gi], ref_profile("comp", seq, w, G))
                 if err:
-                    v("profile:composition", "%s: composition(%d,%s) group %r: %s; row=%r" % (seq, w, gname, grp, err, dens[gi].tolist()),
+                    v("profile:composition", "%s: composition(%d,%s) group %r: %s; row=%r" % (sq, w, gname, grp, err, dens[gi].tolist()),
                       w=w, groups=gname)
                     break
     # delta is the mean squared deviation of the w=5,6 sigma profiles from the global sigma
@@ -153,7 +157,7 @@ def check_case(case):
     calls += 1
     d = o.get_delta()
     if not core.close(d, tot / 2, 1e-12, 1e-13):
-        v("delta-vs-sigma-profiles", "%s: get_delta()=%r but the w=5,6 sigma profiles give %r" % (seq, d, tot / 2))
+        v("delta-vs-sigma-profiles", "%s: get_delta()=%r but the w=5,6 sigma profiles give %r" % (sq, d, tot / 2))
     return out, calls
 
 
@@ -208,7 +212,9 @@ def run(tier, seed, t0):
     shards = spaces.word_shards(ALPHA, 1, N, 3)
     extra = [(L, pre) for L, pre in [(8, "KEGP"), (9, "PGEKK"), (12, "KKEEGGPPKE")]]
     extra += [(44, ("KEGP" * 11)[:42]), (64, ("KKEGPGEEKP" * 7)[:63]), (131, ("KEGPPGEK" * 17)[:130]),
-              (300, ("EK" * 150)[:299]), (301, ("K" * 301)[:300]), (270, ("KKKE" * 70)[:269])]
+              (300, ("EK" * 150)[:299]), (301, ("K" * 301)[:300]), (270, ("KKKE" * 70)[:269]),
+              # windows beyond 1000 residues over sparsely charged linkers (smallest non-zero window fraction 1/w < 0.001)
+              (1201, "G" * 599 + "K" + "G" * 600), (1301, ("G" * 400 + "E" + "P" * 248 + "K") * 2)]
     extra += [(21, "DB"), (34, "DB"), (0, "REJECTED-FIRST"), (27, "ALL20")]
     acc = core.pmap(shard, shards + extra)
     acc.merge(core.run_optimized(PROP, tier))      # the rejection battery once more under `python -O`
